@@ -74,6 +74,9 @@ NNodes == Len(nd)
 Ids    == 1..NNodes
 Polls  == [n \in Ids |-> nd[n].polls]
 
+RECURSIVE SumSeq(_)
+SumSeq(q) == IF q = <<>> THEN 0 ELSE Head(q) + SumSeq(Tail(q))
+
 Idle == [pc |-> 0, next |-> INF, st |-> 0, s |-> "idle"]
 
 \* a task whose waits are `pat` starts running at host time now
@@ -176,8 +179,12 @@ TurnBegin(h) ==
                              ![h].m = StartTask(nd[h].pat, nd[h].out, nd[h].hEl),
                              ![h].t = IF nd[h].tout = "none" THEN Idle
                                       ELSE StartTask(nd[h].tpat, nd[h].tout, nd[h].hEl)]
+    \* the software announces a task that is going to panic (ghost for PanicSurfaces)
+    /\ IF ~nd[h].started /\ nd[h].tout = "Panic"
+       THEN P_WillPanic(h, nd[h].off + nd[h].hEl + SumSeq(nd[h].tpat))
+       ELSE UNCHANGED pvars
     /\ last' = [a |-> "turn", h |-> h]
-    /\ UNCHANGED <<pvars, elapsed, steps, phase, ran, isFin, inRun, rr, nctl>>
+    /\ UNCHANGED <<elapsed, steps, phase, ran, isFin, inRun, rr, nctl>>
 
 WEnd == nd[cur].hEl + Tick
 Task(t) == IF t = "m" THEN nd[cur].m ELSE nd[cur].t
